@@ -327,6 +327,7 @@ Arguments to_span_records : simpl never.
 Arguments find_local : simpl never.
 Arguments scoped_id_free : simpl never.
 Arguments takes : simpl never.
+Arguments split_locals : simpl never.
 
 Ltac okv := apply okview_intro; simpl; auto 4 with okdb.
 Ltac fin := split; [okv | simpl; auto 4 with okdb].
@@ -412,7 +413,7 @@ Proof.
     pose proof (s_register_none_ok _ _ _ Vst Rg) as Hst1. inversion X; subst. fin.
   - (* lc collect *)
     destruct (amem ls (s_lsets s)); [discriminate|].
-    destruct (th_scoped th) as [|[?|?|lc' oep] rest]; try discriminate.
+    destruct (split_locals (th_scoped th)) as [open_locals [|[?|?|lc' oep] rest]]; try discriminate.
     destruct (negb (lc =? lc')); [discriminate|].
     destruct (lc_collect (s_dbg s) (th_stack th) oep e) as [[[[[spans endt] otk] st1] e1]|] eqn:C; [|discriminate].
     pose proof (lc_collect_ok1 _ _ _ _ _ _ _ _ _ Vst C) as Hst1. inversion X; subst. fin.
